@@ -11,6 +11,9 @@ NASA = 'pmutt.empirical.nasa'
 SHO = 'pmutt.empirical.shomate'
 GPA = 'pmutt.empirical.GasPressureAdj'
 QS = ('CpoR', 'HoRT', 'SoR', 'GoRT')
+# getter with units -> (dimensionless quantity, unit handed over, multiplied by T)
+DIM = {'Cp': ('CpoR', 'kJ/mol/K', False), 'H': ('HoRT', 'kJ/mol', True), 'S': ('SoR', 'kJ/mol/K', False),
+       'G': ('GoRT', 'kJ/mol', True)}
 
 
 def species_obj(I, repo, kind, misc):
@@ -65,8 +68,9 @@ def summation(run, repo, max_len):
     aggregation: value = bare + sum over models, per element"""
     n = 0
     for kind in ('Nasa', 'Nasa9', 'Shomate'):
-        for q in QS:
-          for k in (2, 0, 1, 3)[:4 if max_len > 3 else 3]:
+        for q in QS + tuple(DIM):
+          # the getters with units (fixed unit: the conversion itself is C04's subject) with two attached models
+          for k in ((2, 0, 1, 3)[:4 if max_len > 3 else 3] if q in QS else (2,)):
             I = Interp(repo, order=RankOrder(ranks(max_len)))
             D = I.D
             P, x = D.sym('P'), D.sym('x')
@@ -76,6 +80,12 @@ def summation(run, repo, max_len):
             run.fn(owner.qual + '.get_' + q)
             con = '%s.get_%s' % (kind, q)
             tag = '' if k == 2 else ' (%d attached)' % k
+            extra = {}
+            if q in DIM:
+                # documented attribute of every species; no composition: molar units only
+                o.attrs['elements'] = None
+                extra = {'units': DIM[q][1]}
+            dimtxt = 'R%s (units=%r) times ' % ('*T' if DIM[q][2] else '', DIM[q][1]) if q in DIM else ''
 
             def flat(v):
                 if isinstance(v, SumV):
@@ -83,17 +93,29 @@ def summation(run, repo, max_len):
                 return v
 
             def want_at(Tv):
+                if q in DIM:
+                    q0, u, timesT = DIM[q]
+                    if q0 == 'GoRT':
+                        v = (bare(I, repo, kind, o, 'HoRT', Tv) + attached_sum(I, misc, 'HoRT', T=Tv, P=P, x=x)) - \
+                            (bare(I, repo, kind, o, 'SoR', Tv) + attached_sum(I, misc, 'SoR', T=Tv, P=P, x=x))
+                    else:
+                        v = bare(I, repo, kind, o, q0, Tv) + attached_sum(I, misc, q0, T=Tv, P=P, x=x)
+                    # R in the requested molar unit, written out: kb * Na * (J -> unit)
+                    v = v * D.sym('kb') * D.sym('Na') * I.unit(u.split('/')[0])
+                    return v * Tv if timesT else v
                 if q == 'GoRT':
                     return (bare(I, repo, kind, o, 'HoRT', Tv) + attached_sum(I, misc, 'HoRT', T=Tv, P=P, x=x)) - \
                         (bare(I, repo, kind, o, 'SoR', Tv) + attached_sum(I, misc, 'SoR', T=Tv, P=P, x=x))
                 return bare(I, repo, kind, o, q, Tv) + attached_sum(I, misc, q, T=Tv, P=P, x=x)
             # scalar
             T = D.sym('T')
-            got = flat(I.call_method(o, 'get_' + q, [], {'T': T, 'P': P, 'x': x}))
+            got = flat(I.call_method(o, 'get_' + q, [], dict({'T': T, 'P': P, 'x': x}, **extra)))
             run.check(same(got, want_at(T)), 'BRANCH-TWIN.scalar', con, 'scalar T' + tag,
-                      'value at a scalar temperature is %s, expected the bare polynomial plus the sum over every '
-                      'attached model at the same T and conditions' % show(got, 200), owner.module, fn,
-                      sample='%s(T,P,x) == poly(T) + sum_models model.get_%s(T,P,x)' % (con, q) if k == 2 else None)
+                      'value at a scalar temperature is %s, expected %sthe bare polynomial plus the sum over every '
+                      'attached model at the same T and conditions' % (show(got, 200), dimtxt), owner.module, fn,
+                      sample=('%s(T,units,P,x) == R%s * (poly(T) + sum_models model.get_%s(T,P,x))'
+                              % (con, '*T' if DIM[q][2] else '', DIM[q][0]) if q in DIM else
+                              '%s(T,P,x) == poly(T) + sum_models model.get_%s(T,P,x)' % (con, q)) if k == 2 else None)
             n += 1
             # arrays
             bad = None
@@ -101,7 +123,7 @@ def summation(run, repo, max_len):
                 Ts = [D.sym('T%d' % i) for i in range(L)]
                 arr = ListV(list(Ts))
                 arr.is_array = True
-                got = I.call_method(o, 'get_' + q, [], {'T': arr, 'P': P, 'x': x})
+                got = I.call_method(o, 'get_' + q, [], dict({'T': arr, 'P': P, 'x': x}, **extra))
                 if L == 1 and isinstance(got, (Rat, SumV)):
                     got = ListV([got])
                 ok = isinstance(got, ListV) and len(got) == L and \
@@ -113,10 +135,38 @@ def summation(run, repo, max_len):
                     bad = (L, got)
             if bad is not None:
                 run.fail('BRANCH-TWIN.array', con, 'array T' + tag,
-                         'for an array of %d temperatures the result %s is not, element by element, the bare '
+                         'for an array of %d temperatures the result %s is not, element by element, %sthe bare '
                          'polynomial plus the sum over every attached model evaluated at that element\'s temperature'
-                         % (bad[0], show(bad[1], 260)), owner.module, fn)
+                         % (bad[0], show(bad[1], 260), dimtxt), owner.module, fn)
     return n
+
+
+# forms of the misc_models argument: the pressure adjustment (object, or the dictionary to_dict writes for it) absent,
+# alone, behind, ahead of and between other models
+FORMS = ('None', '[]', '[cov]', '[adj]', '[cov,adj]', '[entry]', '[cov,entry]', '[adj,cov]', '[entry,cov]',
+         '[cov,adj,cov]', '[cov,cov]', '[cov,entry,cov]')
+
+
+def misc_of(I, repo, fr, form, real_cov=False):
+    """the misc_models argument spelled by `form`"""
+    if form == 'None':
+        return None
+    D = I.D
+    out = []
+    for j, tok in enumerate(t for t in form.strip('[]').split(',') if t):
+        if tok == 'cov' and real_cov:
+            out.append(fr.apply(repo.cls('pmutt.mixture.cov.PiecewiseCovEffect'), [],
+                                {'name_i': 'sp', 'name_j': 'B%d' % j, 'intervals': ListV([C(0), D.sym('b1')]),
+                                 'slopes': ListV([D.sym('k0_%d' % j), D.sym('k1_%d' % j)])}, None))
+        elif tok == 'cov':
+            out.append(Obj('cov%d' % j, repo.cls('pmutt.mixture.cov.PiecewiseCovEffect'), attrs={'name_j': 'B%d' % j}))
+        elif tok == 'adj':
+            out.append(fr.apply(repo.cls(GPA), [], {}, None))
+        elif tok == 'entry':
+            out.append(DictV({'class': "<class 'pmutt.empirical.GasPressureAdj'>"}))
+        else:
+            raise AnchorError('form %s' % form)
+    return ListV(out)
 
 
 def attachment(run, repo):
@@ -126,10 +176,9 @@ def attachment(run, repo):
     eci = repo.cls('pmutt.empirical.EmpiricalBase')
     owner, fn = repo.find_method(eci, '__init__')
     run.fn(owner.qual + '.__init__')
-    entry = lambda: DictV({'class': "<class 'pmutt.empirical.GasPressureAdj'>"})
     for phase in ('g', 'gas', 'G', 'Gas', 'GAS', 's', 'S', 'l', None):
         gas = phase is not None and phase.lower() in ('g', 'gas')
-        for form in ('None', '[]', '[cov]', '[adj]', '[cov,adj]', '[entry]', '[cov,entry]'):
+        for form in FORMS:
             for add in (True, False):
                 if 'entry' in form and (not add or not gas):
                     # the serialised form is only produced by to_dict of a gas species and re-enters through
@@ -137,11 +186,7 @@ def attachment(run, repo):
                     continue
                 I = Interp(repo)
                 fr = Frame(I, repo.module('pmutt'), {}, None, None)
-                cov = Obj('cov', repo.cls('pmutt.mixture.cov.PiecewiseCovEffect'), attrs={'name_j': 'B'})
-                adj = fr.apply(gci, [], {}, None)
-                misc = {'None': None, '[]': ListV([]), '[cov]': ListV([cov]), '[adj]': ListV([adj]),
-                        '[cov,adj]': ListV([cov, adj]), '[entry]': ListV([entry()]),
-                        '[cov,entry]': ListV([cov, entry()])}[form]
+                misc = misc_of(I, repo, fr, form)
                 o = Obj('sp', eci, closed=True)
                 r = I.call_method(o, '__init__', [], {'name': 'sp', 'phase': phase, 'misc_models': misc,
                                                       'add_gas_P_adj': add})
